@@ -166,7 +166,7 @@ func (cs *caseState) correspond(rd round, rnd []byte) {
 	if rd.extended {
 		proto = "p"
 	}
-	r.Do(fmt.Sprintf("C04.stmt %s %s %s %s %s", proto, sch, kvToks(cs.kv), tok, core.Hex(rnd[:min(len(rnd), 600)])))
+	r.Do(fmt.Sprintf("C04.stmt %s %s %s %s %s", proto, sch, kvToks(cs.kv), tok, core.Hex(rnd[:min(len(rnd), 2048)])))
 	if rd.extended && len(rd.params) > 0 {
 		// which parameters are protected (from the generator's knowledge) → candidate orders
 		var prot []int
@@ -200,7 +200,7 @@ func (cs *caseState) correspond(rd round, rnd []byte) {
 			}
 		}
 		base := fmt.Sprintf("C04.bind %s %s %s %s", sch, kvToks(cs.kv), tok, paramsTok(rd.params))
-		tail := core.Hex(rnd[:min(len(rnd), 600)])
+		tail := core.Hex(rnd[:min(len(rnd), 2048)])
 		first := fmt.Sprintf("%s %s %s", base, intsTok(prot), tail)
 		impl := r.Impl(first)
 		line := first
